@@ -62,7 +62,8 @@ def file_pass(rep, cases, info):
                 rep.violation(dict(P.describe(c), error=str(e)), f"file load fails where string load succeeds: {e}")
                 continue
             got = D.project_value(m)
-            want = i["exp"]["model"]
+            # where the string load is explained by a listed finding, the file load must show the same model
+            want = i["real"]["model"] if i.get("verdict") == "known" else i["exp"]["model"]
             n += 1
             loc = get_location(m)
             if common.canon(got) != common.canon(want):
